@@ -95,8 +95,37 @@ def units_part(P, R):
             ok = a[:3] == ['self.flat_values', f'{ap.params[1]}.buffer_values', f'{ap.params[1]}.buffer_inner_offsets']
             R.check(ok, 'C02.b', ap, c, 'array polygon form passes (points, whole values, innermost offsets, inds)', f'array polygon form passes {a}')
     # x/y of element j, read and write index from the same enumerate(inds)
+    # C02.f: a point belongs to a multipoint when ONE member has both its coordinates: membership tested per axis (np.isin on the x's and on the y's
+    # separately, `x in xs and y in ys`) accepts (x of one member, y of another)
+    nmp = 0
+    for g_ in P.mods[PT].funcs.values():
+        if 'multipoint' not in g_.name.lower() or 'intersects' not in g_.name.lower():
+            continue
+        nmp += 1
+        per_axis = []
+        for c in ast.walk(g_.node):
+            tgt = None
+            if isinstance(c, ast.Call) and norm(c.func).split('.')[-1] in ('isin', 'in1d') and len(c.args) >= 2:
+                tgt = c.args[1]
+            elif isinstance(c, ast.Compare) and len(c.ops) == 1 and isinstance(c.ops[0], (ast.In, ast.NotIn)):
+                tgt = c.comparators[0]
+            if tgt is None:
+                continue
+            e = astq.expand(g_, tgt)
+            one_axis = any(isinstance(x, ast.Subscript) and isinstance(x.slice, ast.Slice) and x.slice.step is not None and norm(x.slice.step) == '2' for x in ast.walk(e)) \
+                or any(isinstance(x, ast.Attribute) and x.attr in ('x', 'y', 'xs', 'ys') for x in ast.walk(e))
+            if one_axis:
+                per_axis.append(c)
+        R.check(not per_axis, 'C02.f', g_, per_axis[0] if per_axis else None, 'multipoint membership pairs x and y of the same member',
+                f'`{norm(per_axis[0]) if per_axis else ""}` tests membership on one axis only: a point with the x of one member and the y of another is reported as intersecting',
+                construct=f'{g_.name}: paired membership')
+    R.floor('C02.f', 'point-vs-multipoint functions', nmp, 2)
     for name in ('_perform_intersects_multipoint', '_perform_intersects_line', '_perform_intersects_polygon'):
-        f = P.func(PT, name)
+        f = P.mods[PT].funcs.get(name)
+        if f is None:
+            if any(o.status == 'violated' for o in R.obs):
+                continue        # the kernel was replaced and the replacement is already reported
+            raise AnalysisError(f'function {PT}:{name} not found (anchor vanished)')
         loops = [l for l in f.node.body if isinstance(l, ast.For)]
         ok = False
         rname = next((norm(s.value) for s in f.node.body if isinstance(s, ast.Return) and isinstance(s.value, ast.Name)), 'result')
@@ -157,8 +186,39 @@ def units_part(P, R):
     # inds=None -> arange(len(self))
     for name in ('PointArray._intersects_multipoint', 'PointArray._intersects_line', 'PointArray._intersects_polygon'):
         f = P.func(PT, name)
-        ok = any(isinstance(s, ast.If) and norm(s.test) == 'inds is None' and any(norm(x) == 'inds = np.arange(len(self))' for x in s.body) for s in f.node.body)
-        R.check(ok, 'C02.b', f, None, f'{name}: inds=None means every element', f'{name}: inds=None is not replaced by arange(len(self))', construct=f'{name} default inds')
+        ip_ = f.params[-1]
+        ok = any(isinstance(s, ast.If) and norm(s.test) == f'{ip_} is None' and any(norm(x) == f'{ip_} = np.arange(len(self))' for x in s.body) for s in f.node.body)
+        gather = any(isinstance(s, ast.If) and norm(s.test) == f'{ip_} is not None' and any(isinstance(x, ast.Assign) and isinstance(x.value, ast.Subscript) and norm(x.value.slice) == ip_ for x in s.body)
+                     for s in walk_own(f.node))
+        used = any(isinstance(x, ast.Name) and x.id == ip_ and isinstance(x.ctx, ast.Load) for x in walk_own(f.node))
+        if ok or gather:
+            R.ok('C02.b', f, None, f'{name}: inds=None means every element' if ok else f'{name}: the coordinates are gathered by inds when it is given', construct=f'{name} default inds')
+        elif not used:
+            R.bad('C02.b', f, None, f'{name} ignores inds: the answer is not restricted to (and ordered by) the requested positions', construct=f'{name} default inds')
+        else:
+            R.abstain('C02.b', f, None, f'{name}: handling of inds=None not recognised', construct=f'{name} default inds')
+    # C02.g: the scalar point-vs-point form compares coordinate VALUES (x with x, y with y) like the array form; object equality of the two
+    # geometries compares Arrow scalars (element dtype and bit pattern), so 0.0 / -0.0 or an int64 and a float64 point at the same place differ
+    sp = P.func(PT, 'Point._intersects_point')
+    other = sp.params[1] if len(sp.params) > 1 else 'point'
+    outs = {}
+    objeq = [c for c in walk_own(sp.node) if isinstance(c, ast.Compare) and len(c.ops) == 1 and isinstance(c.ops[0], (ast.Eq, ast.NotEq, ast.Is))
+             and {norm(astq.expand(sp, c.left)), norm(astq.expand(sp, c.comparators[0]))} & {'self', other, 'self.data', f'{other}.data'}]
+    if objeq:
+        R.bad('C02.g', sp, objeq[0], f'`{norm(objeq[0])}` decides point-vs-point by object equality (Arrow scalar comparison), not by the coordinate values: points at the same place with another '
+              'element dtype, or 0.0 against -0.0, are reported as not intersecting while the array form reports True', construct='scalar point-vs-point compares values')
+    else:
+        try:
+            for rx in ((0, 0), (0, 1), (1, 0)):
+                for ry in ((0, 0), (0, 1), (1, 0)):
+                    vals = {'self.x': Sym(rx[0], 'sx', 'X'), f'{other}.x': Sym(rx[1], 'px', 'X'), 'self.y': Sym(ry[0], 'sy', 'Y'), f'{other}.y': Sym(ry[1], 'py', 'Y')}
+                    I_, ctl = ordeval.run_fragment(sp.node.body, {'self': OPQ, other: OPQ}, {'attr': lambda I, e, vals=vals: vals.get(norm(e))})
+                    outs[(rx, ry)] = ctl.val if ctl is not None and ctl.kind == 'return' else None
+            wrong = [k for k, v in outs.items() if v is OPQ or bool(v) != (k[0][0] == k[0][1] and k[1][0] == k[1][1])]
+            R.check(not wrong, 'C02.g', sp, None, 'scalar point-vs-point is x == x and y == y on the coordinate values (9 order cases)',
+                    f'scalar point-vs-point differs from coordinate equality on {len(wrong)} of 9 cases, e.g. {wrong[:2]}', construct='scalar point-vs-point compares values')
+        except (ordeval.NotComparisonOnly, ordeval.AxisMismatch) as e:
+            R.abstain('C02.g', sp, None, f'scalar point-vs-point is not a comparison of coordinates the evaluator can follow ({e})', construct='scalar point-vs-point compares values')
     ip = P.func(PT, 'PointArray._intersects_point')
     txt = norm(ip.node)
     fl = next((s_.targets[0].id for s_ in walk_own(ip.node) if isinstance(s_, ast.Assign) and isinstance(s_.targets[0], ast.Name) and norm(s_.value) == 'self.flat_values'), 'flat')
